@@ -33,6 +33,35 @@ pub fn navigate<'a, P: SimPrefix, T: SimVal>(mut v: TrieView<'a, P, T>, nav: &[N
     }
     v
 }
+/// region of the key space a view owns after a navigation step: a sub-view narrows it, a virtual
+/// view above it (from `find(q)` with q covering the searched view) keeps it
+pub fn narrow(region: Key, new_prefix: Key) -> Key {
+    if region.covers(new_prefix) {
+        new_prefix
+    } else {
+        region
+    }
+}
+/// navigate and report the region of the resulting view (the entries it must address are the
+/// stored entries of the container inside that region)
+pub fn navigate_region<'a, P: SimPrefix, T: SimVal>(v: TrieView<'a, P, T>, nav: &[Nav]) -> (TrieView<'a, P, T>, Key) {
+    let mut region = v.prefix().raw().key();
+    let mut v = v;
+    for n in nav {
+        v = navigate(v, std::slice::from_ref(n));
+        region = narrow(region, v.prefix().raw().key());
+    }
+    (v, region)
+}
+pub fn navigate_mut_region<'a, P: SimPrefix, T: SimVal>(v: TrieViewMut<'a, P, T>, nav: &[Nav]) -> (TrieViewMut<'a, P, T>, Key) {
+    let mut region = v.prefix().raw().key();
+    let mut v = v;
+    for n in nav {
+        v = navigate_mut(v, std::slice::from_ref(n));
+        region = narrow(region, v.prefix().raw().key());
+    }
+    (v, region)
+}
 pub fn navigate_mut<'a, P: SimPrefix, T: SimVal>(mut v: TrieViewMut<'a, P, T>, nav: &[Nav]) -> TrieViewMut<'a, P, T> {
     for n in nav {
         let next = match n {
@@ -102,10 +131,16 @@ pub fn pack_c11<P: SimPrefix, T: SimVal>(
                 }
                 // one level of left/right from here (virtual views have their own code path)
                 check_sides(ctx, &v, &t.ents, canonical, cap)?;
+                if q.len > 0 && (mix64(salt ^ q.bits as u64 ^ q.len as u64) % 4 == 0) {
+                    for q2 in [q, q.parent().unwrap_or(q), if q.len < P::WIDTH { q.child(true) } else { q }, Key::ZERO] {
+                        check_view_at_from(ctx, &v, q, &t.ents, q2, salt, cap)?;
+                    }
+                }
             }
         }
     }
     // recursive descent from the whole-container view
+    let pr = probes::<P>(cfg, &t.ents);
     let mut stack = vec![(root.clone(), 0usize)];
     let mut visited = 0usize;
     while let Some((v, depth)) = stack.pop() {
@@ -115,11 +150,50 @@ pub fn pack_c11<P: SimPrefix, T: SimVal>(
             break;
         }
         let (l, r) = check_sides(ctx, &v, &t.ents, canonical, cap)?;
+        if visited <= 10 && depth > 0 {
+            // view_at issued on this sub-view (queries inside, equal, covering, disjoint)
+            let region = v.prefix().raw().key();
+            for q in c12_queries::<P>(region, &pr, salt).into_iter().take(9) {
+                check_view_at_from(ctx, &v, region, &t.ents, q, salt, cap)?;
+            }
+        }
         if let Some(r) = r {
             stack.push((r, depth + 1));
         }
         if let Some(l) = l {
             stack.push((l, depth + 1));
+        }
+    }
+    Ok(())
+}
+
+
+/// `view_at(q)` called on a (sub-)view that owns `region`: it must address exactly the stored
+/// entries inside the region that are covered by q, report q as its prefix, and the value stored
+/// exactly at q (if q lies inside the region).
+fn expected_view_at(truth: &[Ent], region: Key, q: Key) -> (Vec<Ent>, Option<u64>) {
+    if region.covers(q) {
+        (under(truth, q).into_iter().cloned().collect(), find_key(truth, q).map(|e| e.v))
+    } else if q.covers(region) {
+        (under(truth, region).into_iter().cloned().collect(), None)
+    } else {
+        (vec![], None)
+    }
+}
+
+fn check_view_at_from<P: SimPrefix, T: SimVal>(ctx: &mut Ctx, v: &TrieView<'_, P, T>, region: Key, truth: &[Ent], q: Key, salt: u64, cap: usize) -> R {
+    let (exp, here) = expected_view_at(truth, region, q);
+    let qr = noisy::<P>(q, salt);
+    let got = ctx.obs("C11", "view_at(on a view)", || v.clone().view_at(P::make(qr)).map(|w| (w.prefix().raw().key(), w.value().map(|x| x.snap()), view_ents(&w, cap))))?;
+    match got {
+        None => {
+            chk!(ctx, "C11", exp.is_empty(), "subview.view_at:none-but-entries", "view {region}: view_at({q}) is None but the view's entries {:?} are covered by {q}", exp);
+        }
+        Some((p, val, ents)) => {
+            ctx.rare("probe.view_at called on a sub-view");
+            chk!(ctx, "C11", p == q, "subview.view_at:prefix", "view {region}: view_at({q}).prefix() = {p}");
+            chk!(ctx, "C11", ents == exp, "subview.view_at:iter", "view {region}: view_at({q}) addresses {:?}, the view's entries covered by {q}: {:?}", ents, exp);
+            chk!(ctx, "C11", val == here, "subview.view_at:value", "view {region}: view_at({q}).value() = {:?}, stored exactly there: {:?}", val, here);
         }
     }
     Ok(())
@@ -184,6 +258,35 @@ pub fn pack_c11_mut<P: SimPrefix>(ctx: &mut Ctx, cfg: &Cfg, real: &mut PrefixMap
                 chk!(ctx, "C11", ents == exp, "view_mut_at:iter", "view_mut_at({q}) addresses {:?}, entries under {q}: {:?}", ents, exp);
                 if canonical && q.len > 0 {
                     chk!(ctx, "C11", !exp.is_empty(), "view_mut_at:exists-but-empty", "canonical trie: view_mut_at({q}) exists but holds no entry");
+                }
+            }
+        }
+    }
+    // view_mut_at issued on a mutable sub-view
+    let pr = probes::<P>(cfg, &t.ents);
+    let mut rng = Rng::new(salt ^ 0xFACE);
+    for _ in 0..6 {
+        if pr.is_empty() {
+            break;
+        }
+        let vq = *rng.pick(&pr);
+        if vq.len == 0 {
+            continue;
+        }
+        for q in c12_queries::<P>(vq, &pr, salt).into_iter().take(7) {
+            let (exp, here) = expected_view_at(&t.ents, vq, q);
+            let got = ctx.obs("C11", "view_mut_at(on a view)", || {
+                (&mut *real).view_mut_at(P::make(vq.raw())).map(|vm| vm.view_mut_at(P::make(noisy::<P>(q, salt))).map(|w| (w.prefix().raw().key(), w.value().map(|x| x.payload), view_ents(&(&w).view(), cap))))
+            })?;
+            let Some(got) = got else { continue };
+            match got {
+                None => {
+                    chk!(ctx, "C11", exp.is_empty(), "subview.view_mut_at:none-but-entries", "mutable view {vq}: view_mut_at({q}) is None but the view's entries {:?} are covered by {q}", exp);
+                }
+                Some((p, val, ents)) => {
+                    chk!(ctx, "C11", p == q, "subview.view_mut_at:prefix", "mutable view {vq}: view_mut_at({q}).prefix() = {p}");
+                    chk!(ctx, "C11", ents == exp, "subview.view_mut_at:iter", "mutable view {vq}: view_mut_at({q}) addresses {:?}, the view's entries covered by {q}: {:?}", ents, exp);
+                    chk!(ctx, "C11", val == here, "subview.view_mut_at:value", "mutable view {vq}: view_mut_at({q}).value() = {:?}, stored exactly there: {:?}", val, here);
                 }
             }
         }
@@ -261,6 +364,15 @@ fn c12_queries<P: SimPrefix>(vp: Key, pr: &[Key], salt: u64) -> Vec<Key> {
     }
     if vp.len > 1 {
         qs.push(vp.truncate(vp.len / 2));
+    }
+    // shorter than the view's prefix and disjoint from it: the sibling of an ancestor
+    for l in [1u8, vp.len / 2, vp.len.saturating_sub(1)] {
+        if l >= 1 && l < vp.len {
+            let anc = vp.truncate(l);
+            if let Some(p) = anc.parent() {
+                qs.push(p.child(!Key::addr_bit(anc.bits, p.len)));
+            }
+        }
     }
     let mut rng = Rng::new(salt ^ vp.bits as u64 ^ vp.len as u64);
     for _ in 0..10.min(pr.len()) {
